@@ -121,7 +121,7 @@ func raceCase(idx int, args sim.Args, r *sim.Rand, v *sim.Verdict) {
 		ttl := time.Duration(w.TTLMs) * time.Millisecond
 		req := queue.NewRequest(w.ID, float64(w.Priority), clk)
 		go func(ch chan bool) {
-			ok, _ := dpq.Enqueue(req, ttl, 10)
+			ok, _ := dpq.Enqueue(req, ttl, int64(k))
 			ch <- ok
 		}(done[j])
 		if !clk.WaitPending(func(p sim.Waiter) bool { return p.D == ttl }, 1, watchdog) {
@@ -210,6 +210,76 @@ func raceCase(idx int, args sim.Args, r *sim.Rand, v *sim.Verdict) {
 			if !w.Fired && !w.Released {
 				v.Violate("C10/stranded/ttl-raced-rollover", fmt.Sprintf("%s (TTL not elapsed) left waiting by a rollover that released %d of quota %d", w.ID, trueN, rp.Quota), rp)
 				return
+			}
+		}
+	}
+	// queue bound after the race: the queue size is k; R waiters are still parked; with the window used up,
+	// k-R further callers must be parked and the next one rejected at once
+	if trueN == rp.Quota {
+		still := 0
+		for _, w := range rp.Waiters {
+			if !w.Returned {
+				still++
+			}
+		}
+		var probeTimers []time.Duration
+		probeDone := []chan bool{}
+		for j := 0; j <= k-still; j++ {
+			ttl := time.Duration(5000+j) * time.Millisecond
+			ch := make(chan bool, 1)
+			req := queue.NewRequest(fmt.Sprintf("probe%d", j), 1, clk)
+			go func() {
+				ok, _ := dpq.Enqueue(req, ttl, int64(k))
+				ch <- ok
+			}()
+			parked, returned, res := false, false, false
+			deadline := time.Now().Add(watchdog)
+			for !parked && !returned {
+				select {
+				case res = <-ch:
+					returned = true
+				default:
+					for _, p := range clk.Pending() {
+						if p.D == ttl {
+							parked = true
+						}
+					}
+					if !parked {
+						if time.Now().After(deadline) {
+							v.Inconclude(fmt.Sprintf("race case %d: probe neither parked nor returned", idx))
+							return
+						}
+						time.Sleep(50 * time.Microsecond)
+					}
+				}
+			}
+			last := j == k-still
+			switch {
+			case returned && res:
+				v.Violate("C10/window-quota-exceeded", fmt.Sprintf("race case: a new caller passed in window 1 whose quota %d was used up by the rollover", rp.Quota), rp)
+				return
+			case !last && returned:
+				v.Violate("C10/rejected-while-queue-not-full/after-ttl-raced-rollover", fmt.Sprintf("after the rollover %d waiters are parked (queue size %d), yet new caller #%d was rejected at once", still+j, k, j), rp)
+				return
+			case last && parked:
+				v.Violate("C10/queue-size-exceeded/after-ttl-raced-rollover", fmt.Sprintf("after the rollover %d waiters were parked and %d more joined (queue size %d), yet one more caller was parked instead of rejected: the waiter count lost a request that was released while its TTL fired", still, k-still, k), rp)
+				return
+			}
+			if parked {
+				probeTimers = append(probeTimers, ttl)
+				probeDone = append(probeDone, ch)
+			}
+		}
+		v.Count("race_queue_bound_probes", 1)
+		for i, ttl := range probeTimers {
+			for _, p := range clk.Pending() {
+				if p.D == ttl {
+					clk.Fire(p.ID)
+				}
+			}
+			select {
+			case <-probeDone[i]:
+			case <-time.After(watchdog):
 			}
 		}
 	}
